@@ -227,19 +227,18 @@ class NoOp(Opcode):
 
 
 def raw_unicode_escape(byte_string: bytes) -> str:
+    # `byte_string` is UTF-8 encoded text. The UNICODE opcode is read back with the
+    # 'raw-unicode-escape' codec, which only understands \\uXXXX / \\UXXXXXXXX escapes, so
+    # everything that is not printable ASCII (and the backslash itself) has to be escaped that way.
     s = []
-    for b in byte_string:
-        if 32 <= b <= 128:
-            # this is printable ASCII
-            s.append(chr(b))
-        elif b == ord("\n"):
-            s.append("\\n")
-        elif b == ord("\r"):
-            s.append("\\r")
-        elif b == ord("\\"):
-            s.append("\\\\")
+    for c in byte_string.decode("utf-8"):
+        o = ord(c)
+        if 32 <= o < 127 and c != "\\":
+            s.append(c)
+        elif o <= 0xFFFF:
+            s.append(f"\\u{o:04x}")
         else:
-            s.append(f"\\u{b:04x}")
+            s.append(f"\\U{o:08x}")
     s.append("\n")
     return "".join(s)
 
